@@ -63,6 +63,40 @@ CLAIMS = {
  "C11": ("Theorems: mergeSpan = overlay (all seven branches), sortedness kept, matrix/vector merge, all merge histories, re-batching invariance. "
          "Correspondence: Vector.Merge / CSMatrix.Merge spans in every relation, histories, random re-batchings through NewCSRMatrix(includeZero).",
          "None beyond the common trusted base."),
+ "C12": ("Theorems: a resource-ledger / location-tag model of Mmap, Munmap, Reset, finalize, Merge and SetDim: contents never depend on swap-out, "
+         "faults or cancellation (for every op history); after success every non-empty row lives in the adopted mapping; at every return no temp "
+         "file and no descriptor remain and only the adopted mapping is live (every fault choice except a failing unlink, stated); failure leaves "
+         "the matrix, its rows and its mapping intact and usable; re-mapping happens exactly when dirty. Tie: Mmap's step order, cleanup defers, "
+         "per-row poll and re-pointing regenerated from matrix.go (decide). Correspondence: the model's ledger and tags vs the PROCESS after every "
+         "call: files in a private TMPDIR, swap-file lines of /proc/self/maps, row addresses inside the mapping; injected faults (TMPDIR unusable, "
+         "zero non-zeros, cancellation at every row), GC/finalizer, histories.",
+         "Kernel mmap semantics, page residency (RSS) and finalizer timing are outside the model; truncate/close/unlink failures are covered by the model and the shape tie only."),
+ "C15": ("Theorems: for every front-end model, the preconditions of the operations whose Go originals can panic hold at every call "
+         "(row/column indices in range for NewCSRMatrix/Transpose, flag table covers all peers, value column present), invalid requests give the "
+         "documented client error with state unchanged, iteration counts are bounded. Tie: the partiality-site inventory (index/slice/deref/make/panic "
+         "expressions per function) regenerated from the source equals the audited one. Correspondence: outcome classes for a malformed-but-structured "
+         "stream and a raw byte-mutation stream on OpenAPI, gRPC (panics recovered harness-side), CLI, playground and CSV readers, with watchdog.",
+         "The decoders (encoding/json, csv, protobuf) are outside the model: 'all byte strings' is covered by the byte-mutation stream only; memory exhaustion by huge sizes is out of scope."),
+ "C16": ("Theorems: for every call history of both services: Get = non-zero cells of the last-writer-wins overlay of the successful updates since "
+         "the last flush/creation, sorted, duplicate-free; timestamp = max of those updates (never lowered); response codes; created ids fresh; unknown "
+         "ids NotFound; invalid updates leave the state unchanged; qword codec round trip, canonicity, injectivity for all naturals. "
+         "Correspondence: call histories over bufconn judged step by step against the model and an independent dense map, multi-qword and stale timestamps.",
+         "The concurrent-clients clause is not proved (sequential histories only): partial."),
+ "C17": ("Theorems: BasicCompute = compute on the canonicalised effective inputs warm-started from the previous global trust, discounted; positive-only vector "
+         "gets the undiscounted scores; timestamps = max of the inputs and never lowered; local trust and every other vector unchanged; NotFound / InvalidArgument "
+         "exactly characterised with state unchanged; iteration count <= max_iterations. Correspondence: histories of updates and computes over bufconn, "
+         "contents bit-compared with the model and judged against the exact rational EigenTrust scores of the documented effective inputs.",
+         "Rounding is a measured tolerance; protobuf/gRPC transport outside the model."),
+ "C19": ("Theorems: the CLI name table is first-appearance order over the concatenated name stream of the three files, indices stable, id/index round trip, "
+         "the request holds exactly the CSV arcs/values/sizes (2- and 3-column records, raw mode), every malformed record refuses; library readers build exactly "
+         "the listed arcs or fail. Correspondence: the real CLI binary with --print-request on generated CSV triples (quotes, commas, unicode, numeric-looking "
+         "names, header/no header, raw mode), and ReadLocalTrustFromCsv, judged against the model and an independent first-appearance spec.",
+         "encoding/csv and strconv (shortest round-trip formatting) are library guarantees, exercised not proved; the loopback README pipeline is not part of the quick tier."),
+ "C20": ("Theorems: result rows are a permutation of the peers (dimension rule), sorted by descending score, scores = the model's compute on the canonicalised inputs "
+         "with alpha = confidence/100 and discounts, flags exactly the pre-trusted peers (flag table covers every peer), unusable uploads refused. "
+         "Correspondence: POST /calculate on a gin engine with the repository templates (hook), HTML scraped, judged against the model (bit-level) and the exact "
+         "rational reference scores; every kind of pre-trusted subset, names present/absent, size relations, malformed files.",
+         "Template engine and multipart decoding outside the model; rounding measured."),
  "C18": ("Theorems: flat-tail stats as functions of the ranking sequence (length, threshold, delta, ranking), stop rule, ranking = top-k. "
          "Correspondence: stats and stop iteration vs an independent spec evaluated on the iterates (bit-exact step function).",
          "Tied scores excluded (as the property does)."),
